@@ -431,7 +431,8 @@ def first_difference(a, b, path=""):
 
 
 def oracle(case, results):
-    world_paths = {f["path"] for f in case["world"].get("files", [])} | {l["path"] for l in case["world"].get("symlinks", [])}
+    world_paths = ({f["path"] for f in case["world"].get("files", [])} | {l["path"] for l in case["world"].get("symlinks", [])}
+                   | {l["path"] for l in case["world"].get("hardlinks", [])})
     vs = []
     base_var, base_res = case["variants"][0], results[0]
     nsteps = min(len(v["steps"]) for v in case["variants"])
